@@ -20,6 +20,7 @@ LEVEL = "exploration"
 SHARDS = {"quick": 8, "thorough": 16}
 TIMEOUT = {"quick": 1500, "thorough": 10800}
 REQUIRED = {"inproc": 500, "subprocess": 48, "outcome.exit0_equals_api": 150, "outcome.nonzero_no_output": 250, "file_effects": 500}
+ANCHORS = ['__main__:main', '__main__:parse_args', '__main__:paranoia_mode', '__main__:file_', '__main__:address_index', '__main__:account_index', 'paper_wallet:PaperWallet.export_wallet', 'paper_wallet:PaperWallet.pprint']
 RULE = ("argv grammar over the five sub-commands and the global options with values on both sides of every validator bound "
         "(account -1/0/2^31-2/2^31-1/2^31, interval ends -1/0/1/2^31-1/2^31/2^31+1/2^32-2/2^32-1/start>end, mnemonic word counts "
         "11..25 with odd spacing, seed/entropy hex of every length class, non-hex, whitespace, 0x; extended keys of 110/111/112 "
